@@ -25,7 +25,8 @@ META = {
             "3 (quick) / 6 (thorough) separate CLI processes; outputs must be byte-identical and `--check` against the first must exit 0. "
             "A hash-order dependence shows as a differing file; the evidence lists processes, files and bytes compared.",
     "note": "Cases whose first generation fails (Err/panic, C16's business) are skipped and counted. All runs of a case write to the same "
-            "--out-dir path so a generator embedding that path would not be flagged.",
+            "--out-dir path so a generator embedding that path would not be flagged. C++ user-class files: the check directory is given the "
+            "`<file>.template` copies the backend writes when the file already exists (design of that backend, not a determinism issue).",
 }
 FLOORS = {"quick": (150, 40), "thorough": (1500, 300)}
 
@@ -108,6 +109,21 @@ def _run_case(case, work, nproc_runs):
     os.makedirs(cwd, exist_ok=True)
     rc, so, se = cli.run_cli(args + ["--check"], cwd=cwd, env_extra={"VERIF_PAD": "y" * 3001, "RUST_BACKTRACE": "0"}, timeout=300)
     res["processes"] += 1
+    # The C++ backend deliberately emits `<file>.template` instead of `<file>` when a user-editable file already exists
+    # in the output directory, so a check against a populated directory looks for a different file set.  Reproduce
+    # that state: the template the generator would write next to an existing user file has the file's own bytes.
+    retries = 0
+    while rc not in (0, None) and retries < 64:
+        m = re.search(r'failed to read "([^"]*)\.template"', se)
+        if not m or not os.path.isfile(m.group(1)) or os.path.exists(m.group(1) + ".template"):
+            break
+        shutil.copyfile(m.group(1), m.group(1) + ".template")
+        retries += 1
+        res["template_files_provided"] = res.get("template_files_provided", 0) + 1
+        rc, so, se = cli.run_cli(args + ["--check"], cwd=cwd, env_extra={"VERIF_PAD": "y" * 3001, "RUST_BACKTRACE": "0"}, timeout=300)
+        res["processes"] += 1
+    if retries:
+        before = _snapshot(out)
     res["check_rc"] = rc
     res["files"] += len(before)
     res["bytes"] += sum(len(v) for v in before.values())
@@ -125,7 +141,7 @@ def _run_case(case, work, nproc_runs):
             shutil.rmtree(work, ignore_errors=True)
             return res
         elif m2:
-            k = "missing:" + (".template" if m2.group(1).endswith(".template") else _kind(m2.group(1)))
+            k = "missing:" + _kind(m2.group(1))
         elif "differs only in line endings" in se:
             k = "line-endings"
         else:
@@ -228,6 +244,7 @@ def run(tier, seed, replay):
         with concurrent.futures.ThreadPoolExecutor(max(2, vcommon.NPROC)) as ex:
             for c, res in ex.map(one, enumerate(cases)):
                 stats["processes_spawned"] += res["processes"]
+                stats["cpp_template_files_provided"] = stats.get("cpp_template_files_provided", 0) + res.get("template_files_provided", 0)
                 stats["files_compared"] += res["files"]
                 stats["bytes_compared"] += res["bytes"]
                 pb = per_backend.setdefault(c["backend"], {"compared": 0, "skipped": 0, "violations": 0})
